@@ -27,10 +27,32 @@ def shipped_gas(stride=1):
             ("pressure", "pseudopressure", "compressibility", "viscosity", "z-factor", "density")}
 
 
-def shipped_haynesville(stride=1):
+def shipped_oil(stride=1):
+    """The shipped black-oil table read as a single-phase liquid (oil columns): its scaled initial pseudopressure
+    m_i = m c mu z / (2 p) at p_i exceeds 1 above ~5500 psi, unlike every gas table."""
+    import pandas as pd
+    df = pd.read_csv(os.path.join(REPO, "tests", "data", "pvt_oil.csv")).rename(columns={
+        "P": "pressure", "Z-Factor": "z-factor", "Co": "compressibility",
+        "Oil_Viscosity": "viscosity", "Oil_Density": "density"})
+    df = df[df["pressure"] > 0]
+    df = df.iloc[::stride].reset_index(drop=True)
+    return {c: np.asarray(df[c], float) for c in
+            ("pressure", "pseudopressure", "compressibility", "viscosity", "z-factor", "density")}
+
+
+def shipped_haynesville(stride=1, consistent_only=False):
+    """The shipped Haynesville table.  131 of its 1400 rows (12300..13560 and 13880..13910 psi) carry Z = 5.0, the
+    search bound the original z_factor_DAK returned when its optimiser failed (defect F3, repaired in gas.py but baked
+    into this data file): density drops by a factor 3 there, and the pseudopressure column above 12300 psi was integrated
+    through those rows.  consistent_only keeps the rows below 12300 psi (C03 quantifies over thermodynamically consistent
+    tables); the other checks keep the whole table - any positive table is admissible for them."""
     import pandas as pd
     df = pd.read_csv(os.path.join(REPO, "tests", "data", "pvt_gas_HAYNESVILLE SHALE_20.csv"))
     df = df.rename(columns={"Density": "density"})
+    if consistent_only:
+        # only the rows below the first Z = 5 row: the pseudopressure column above it was integrated THROUGH the bad rows
+        first_bad = int(np.argmax(np.asarray(df["z-factor"]) >= 4.99))
+        df = df.iloc[:first_bad]
     df = df.iloc[1:].iloc[::stride].reset_index(drop=True)
     return {c: np.asarray(df[c], float) for c in
             ("pressure", "pseudopressure", "compressibility", "viscosity", "z-factor", "density")}
@@ -44,13 +66,17 @@ def synth_table(kind, n=60, pmax=10000.0, rng=None):
         mu = 0.02
         return dict(pressure=p, pseudopressure=(p ** 2 - p[0] ** 2) / mu, compressibility=1 / p,
                     viscosity=np.full(n, mu), **{"z-factor": np.ones(n)}, density=0.003 * p)
-    if kind == "liquid":  # constant compressibility and viscosity: constant diffusivity
+    if kind in ("liquid", "stiff"):  # constant compressibility and viscosity: constant diffusivity
         p = np.linspace(50.0, pmax, n)
         c, mu, p0 = 2e-4, 0.5, 50.0
         rho = 40.0 * np.exp(c * (p - p0))
         z = p / (rho / 40.0 * p0)
         m = 2 * p0 * (np.exp(c * (p - p0)) - 1.0) / (c * mu)
         m = m + 1.0  # positive reference level (scaling divides by pseudopressure)
+        if kind == "stiff":
+            # pseudopressure column in other units (x4): not thermodynamically consistent, but a positive increasing table
+            # whose scaled initial / frac-face pseudopressures exceed 1 (as the shipped oil table's do)
+            m = 4.0 * m
         return dict(pressure=p, pseudopressure=m, compressibility=np.full(n, c), viscosity=np.full(n, mu),
                     **{"z-factor": z}, density=rho)
     rng = rng or np.random.default_rng(0)
@@ -101,6 +127,10 @@ def run_impl(case):
                 res.simulate(t)
             else:
                 tb = {k: np.array(v, float) for k, v in case["table"].items()}
+                if case.get("reverse_rows"):
+                    # rows listed by decreasing pressure (as lab reports are): scipy's interp1d sorts, so the library gives
+                    # the same result as for the ascending table - which is what the model (ascending tables) is given
+                    tb = {k: v[::-1].copy() for k, v in tb.items()}
                 cls = FlowPropertiesSimple if case.get("simple") else FlowProperties
                 fp = cls(tb, case["pi"])
                 out["m_i"] = float(fp.m_i)
@@ -266,7 +296,7 @@ def run_cases(ctx, cases, impls, tag, shard=4, with_resid=True, timeout=900):
 
 
 # ------------------------------------------------------------------------------ case generation
-TABLE_KINDS = ["shipped", "haynesville", "ideal", "liquid", "falling", "kinked", "random"]
+TABLE_KINDS = ["shipped", "haynesville", "ideal", "liquid", "falling", "kinked", "random", "oil", "stiff"]
 
 
 def make_table(kind, rng, quick=True):
@@ -274,6 +304,8 @@ def make_table(kind, rng, quick=True):
         return shipped_gas(stride=20 if quick else 4)
     if kind == "haynesville":
         return shipped_haynesville(stride=25 if quick else 5)
+    if kind == "oil":
+        return shipped_oil(stride=20 if quick else 4)
     return synth_table(kind, n=int(rng.integers(8, 40 if quick else 120)), rng=rng)
 
 
@@ -303,6 +335,8 @@ def gen_cases(rng, n, quick=True, kinds=("single", "ideal"), nx_choices=None, nt
         ratio = float(rng.choice([0.0125, 0.3, 0.875, 0.99875, rng.uniform(0.01, 0.99)]))
         pf = max(float(p[0]), pi * ratio)
         case = dict(kind="single", table=tb, table_kind=tk, pi=pi, pf=pf, nx=nx, times=times, grid=grid)
+        if k % 8 in (2, 6) and k % 16 != 2:
+            case["reverse_rows"] = True
         if rng.random() < sched_prob:
             style = rng.choice(["stepdown", "random", "constant"])
             if style == "stepdown":
